@@ -56,7 +56,7 @@ def qsm_mul(a: QSM, b: QSM) -> QSM | None:
     # Special case for the product of two diagonal matrices
     if lower_a is None and upper_a is None and lower_b is None and upper_b is None:
         assert diag_a is not None and diag_b is not None
-        return DiagQSM(d=diag_a * diag_b)
+        return DiagQSM(d=diag_a.d * diag_b.d)
 
     if lower_a is not None and upper_b is not None:
 
@@ -208,9 +208,8 @@ def qsm_mul(a: QSM, b: QSM) -> QSM | None:
     diag, lower, upper = impl(
         diag_a, lower_a, upper_a, diag_b, lower_b, upper_b, phi, psi
     )
-    is_symm_a = isinstance(a, (DiagQSM, SymmQSM))
-    is_symm_b = isinstance(b, (DiagQSM, SymmQSM))
-    return construct(diag, lower, upper, is_symm_a and is_symm_b)
+    # The product of two symmetric matrices is not symmetric in general
+    return construct(diag, lower, upper, False)
 
 
 def deconstruct(
